@@ -86,6 +86,49 @@ class CallerData(solvex.Monitor):
             pass
 
 
+def persistent_state():
+    """Everything mutable that outlives a call of solve(): containers bound at module level or as class attributes of the
+    package, and mutable default arguments of its functions and methods.  'The result depends only on the arguments'
+    requires that a call leaves all of it as it found it."""
+    import types
+    import dfols.solver, dfols.controller, dfols.model, dfols.util, dfols.params, dfols.trust_region, dfols.diagnostic_info, dfols.hessian
+    mods = [dfols.solver, dfols.controller, dfols.model, dfols.util, dfols.params, dfols.trust_region, dfols.diagnostic_info, dfols.hessian]
+    out = {}
+
+    def rec(key, val):
+        if isinstance(val, np.ndarray):
+            out[key] = ("ndarray", val.shape, val.tobytes())
+        elif isinstance(val, (list, dict, set, bytearray)):
+            out[key] = (type(val).__name__, repr(val)[:2000])
+
+    def fdefaults(key, fn):
+        fn = getattr(fn, "__wrapped__", fn)
+        for i, d in enumerate(getattr(fn, "__defaults__", None) or ()):
+            rec("%s.__defaults__[%d]" % (key, i), d)
+        for k, d in (getattr(fn, "__kwdefaults__", None) or {}).items():
+            rec("%s.__kwdefaults__[%s]" % (key, k), d)
+    for mod in mods:
+        for name, val in list(vars(mod).items()):
+            if name.startswith("__") or isinstance(val, types.ModuleType):
+                continue
+            key = mod.__name__ + "." + name
+            if isinstance(val, type):
+                if getattr(val, "__module__", "").startswith("dfols"):
+                    for attr, v in list(vars(val).items()):
+                        if attr.startswith("__"):
+                            continue
+                        if callable(v):
+                            fdefaults(key + "." + attr, v)
+                        else:
+                            rec(key + "." + attr, v)
+            elif callable(val):
+                if getattr(getattr(val, "__wrapped__", val), "__module__", "").startswith("dfols"):
+                    fdefaults(key, val)
+            else:
+                rec(key, val)
+    return out
+
+
 def _run(cfg, devs=(), own=True, seed=None):
     c = dict(cfg, own_rng=own)
     if seed is not None:
@@ -98,7 +141,13 @@ def check_case(case):
     cfg = case["cfg"]
     v = []
     tags = ["cfg:" + case["name"].split("/")[0]]
+    before = persistent_state()
     a = _run(cfg)
+    after = persistent_state()
+    changed = sorted(k for k in set(before) | set(after) if before.get(k) != after.get(k))
+    if changed:
+        v.append(("persistent_state", "solve() left a trace in state that outlives the call: %s (e.g. %s: %s -> %s)" % (
+            changed[:4], changed[0], str(before.get(changed[0]))[:80], str(after.get(changed[0]))[:80])))
     if a.outcome != "returned":
         return [("returns", "solve did not return: %s %s: %s" % (a.outcome, type(a.exc).__name__, a.exc))], tags
     fa = a.fingerprint()
